@@ -51,6 +51,11 @@ class DeliveryMonitor(netsim.Monitor):
                     "%s received on stream %d %d bytes that are not a prefix of the %d bytes written"
                     % (ep.name, sid, len(got), wr[0]),
                 )
+            if len(ep.rx_reset.get(sid, ())) > 1:
+                raise netsim.Violation(
+                    {"monitor": "delivery.reset_twice"},
+                    "%s got StreamReset %d times on stream %d" % (ep.name, len(ep.rx_reset[sid]), sid),
+                )
             nfin = ep.rx_fin.get(sid, 0)
             if nfin > 1:
                 raise netsim.Violation(
@@ -65,6 +70,11 @@ class DeliveryMonitor(netsim.Monitor):
                     "%s got end_stream on stream %d after %d bytes; written %d fin=%r"
                     % (ep.name, sid, len(got), wr[0], wr[1]),
                 )
+        for sid, codes in ep.rx_reset.items():
+            if len(codes) > 1:
+                raise netsim.Violation(
+                    {"monitor": "delivery.reset_twice"},
+                    "%s got StreamReset %d times on stream %d" % (ep.name, len(codes), sid))
         if ep.terminated is not None and not self.allow_close:
             ev = ep.terminated
             raise netsim.Violation(
@@ -151,6 +161,8 @@ SCRIPTS = {
     "early_write": {"c": [W(0, 1000, True, g="now")]},
     "three_streams_fill": {"c": [W(0, FILL), W(4, FILL), W(8, 0, True), W(0, 0, True), W(4, 0, True)]},
     "small_many": {"c": [W(0, 1), W(0, 1), W(0, 1, True)], "s": [W(1, 1), W(1, 1, True)]},
+    "echo_then_reset": {"c": [W(0, 300), {"op": "reset", "sid": 0, "g": ("rx", 0, 1)}, W(4, 50, True)],
+                        "s": [W(0, 300, g=("rx", 0, 1)), W(1, 20, True)]},
     "fin_sep_later": {"c": [W(0, 700), W(0, 0, True, g=("t", 0.027))]},
     "fin_sep_later_srv": {"c": [W(0, 10, True)], "s": [W(0, 900, g=("rxfin", 0)), W(0, 0, True, g=("t", 0.045))]},
     "request_response_x2": {"c": [W(0, 300, True), W(4, 300, True, g=("rxfin", 0))],
@@ -169,7 +181,8 @@ CONFIGS = {
 def factory(scenario):
     script = SCRIPTS[scenario["script"]] if "script" in scenario else scenario["ops"]
     cfg = CONFIGS[scenario["cfg"]] if isinstance(scenario.get("cfg"), str) else scenario.get("cfg", {})
-    return cfg, script, [_MON], {"max_steps": scenario.get("max_steps", 400)}, goal
+    return cfg, script, [_MON], {"max_steps": scenario.get("max_steps", 400),
+                                 "deviations": ("drop", "dup", "dupmid", "delay", "rebind", "late")}, goal
 
 
 netcheck.register("c01", factory)
